@@ -284,7 +284,7 @@ pub fn resize_through<P: Px>(
                     r.resize_typed(&s, &mut d, opts)
                 }
                 D::UserMut => {
-                    let mut d = UserViewMut::new(&mut db.buf, dp.pw, dp.left, dp.top, dw, dh);
+                    let mut d = UserViewMut::new(&mut db.buf, dp.pw, dp.left, dp.top, dw, dh).padded(user_pad());
                     r.resize_typed(&s, &mut d, opts)
                 }
                 _ => unreachable!(),
@@ -360,10 +360,10 @@ pub fn resize_through<P: Px>(
             to_typed_dst!(s)
         }
         S::User => {
-            let s = UserView::new(&sb.buf, sp.pw, sp.left, sp.top, sw, sh);
+            let s = UserView::new(&sb.buf, sp.pw, sp.left, sp.top, sw, sh).padded(user_pad());
             match dk {
                 D::UserMut => {
-                    let mut d = UserViewMut::new(&mut db.buf, dp.pw, dp.left, dp.top, dw, dh);
+                    let mut d = UserViewMut::new(&mut db.buf, dp.pw, dp.left, dp.top, dw, dh).padded(user_pad());
                     r.resize_typed(&s, &mut d, opts)
                 }
                 _ => to_typed_dst!(s),
@@ -593,6 +593,11 @@ impl<P: Px> Backing<P> {
     }
 }
 
+/// Experiment switch: rows of the user-defined views are this many pixels longer than their width (0 = exactly the width).
+pub fn user_pad() -> u32 {
+    std::env::var("FIRV_USER_PAD").ok().and_then(|s| s.parse().ok()).unwrap_or(0)
+}
+
 // ---------------------------------------------------------------- a user-defined view
 
 /// A view type defined outside the library, the way a user wraps a foreign buffer: it implements only the *required*
@@ -608,12 +613,19 @@ pub struct UserView<'a, P: Px> {
     top: usize,
     w: u32,
     h: u32,
+    /// extra pixels at the end of every row slice (the trait allows rows longer than the width)
+    pad: usize,
 }
 
 impl<'a, P: Px> UserView<'a, P> {
     pub fn new(buf: &'a [P], pw: u32, left: u32, top: u32, w: u32, h: u32) -> UserView<'a, P> {
         assert!(left as u64 + w as u64 <= pw as u64 && (top as u64 + h as u64) * pw as u64 <= buf.len() as u64);
-        UserView { buf, pw: pw as usize, left: left as usize, top: top as usize, w, h }
+        UserView { buf, pw: pw as usize, left: left as usize, top: top as usize, w, h, pad: 0 }
+    }
+    /// rows `pad` pixels longer than the width, as far as the parent row allows
+    pub fn padded(mut self, pad: u32) -> Self {
+        self.pad = (pad as usize).min(self.pw - self.left - self.w as usize);
+        self
     }
     pub fn over(b: &'a Backing<P>) -> UserView<'a, P> {
         UserView::new(&b.buf, b.place.pw, b.place.left, b.place.top, b.w, b.h)
@@ -629,7 +641,7 @@ unsafe impl<'a, P: Px> ImageView for UserView<'a, P> {
         self.h
     }
     fn iter_rows(&self, start_row: u32) -> impl Iterator<Item = &[P]> {
-        let (pw, left, top, w) = (self.pw, self.left, self.top, self.w as usize);
+        let (pw, left, top, w) = (self.pw, self.left, self.top, self.w as usize + self.pad);
         let buf = self.buf;
         (start_row.min(self.h)..self.h).map(move |y| {
             let o = (top + y as usize) * pw + left;
@@ -645,12 +657,17 @@ pub struct UserViewMut<'a, P: Px> {
     top: usize,
     w: u32,
     h: u32,
+    pad: usize,
 }
 
 impl<'a, P: Px> UserViewMut<'a, P> {
     pub fn new(buf: &'a mut [P], pw: u32, left: u32, top: u32, w: u32, h: u32) -> UserViewMut<'a, P> {
         assert!(left as u64 + w as u64 <= pw as u64 && (top as u64 + h as u64) * pw as u64 <= buf.len() as u64);
-        UserViewMut { buf, pw: pw as usize, left: left as usize, top: top as usize, w, h }
+        UserViewMut { buf, pw: pw as usize, left: left as usize, top: top as usize, w, h, pad: 0 }
+    }
+    pub fn padded(mut self, pad: u32) -> Self {
+        self.pad = (pad as usize).min(self.pw - self.left - self.w as usize);
+        self
     }
     pub fn over(b: &'a mut Backing<P>) -> UserViewMut<'a, P> {
         let (p, w, h) = (b.place, b.w, b.h);
@@ -667,7 +684,7 @@ unsafe impl<'a, P: Px> ImageView for UserViewMut<'a, P> {
         self.h
     }
     fn iter_rows(&self, start_row: u32) -> impl Iterator<Item = &[P]> {
-        let (pw, left, top, w) = (self.pw, self.left, self.top, self.w as usize);
+        let (pw, left, top, w) = (self.pw, self.left, self.top, self.w as usize + self.pad);
         let buf: &[P] = self.buf;
         (start_row.min(self.h)..self.h).map(move |y| {
             let o = (top + y as usize) * pw + left;
@@ -678,7 +695,7 @@ unsafe impl<'a, P: Px> ImageView for UserViewMut<'a, P> {
 
 unsafe impl<'a, P: Px> fr::ImageViewMut for UserViewMut<'a, P> {
     fn iter_rows_mut(&mut self, start_row: u32) -> impl Iterator<Item = &mut [P]> {
-        let (pw, left, top, w, h) = (self.pw, self.left, self.top, self.w as usize, self.h as usize);
+        let (pw, left, top, w, h) = (self.pw, self.left, self.top, self.w as usize + self.pad, self.h as usize);
         let start = (start_row as usize).min(h);
         // disjoint mutable rows: walk the parent row by row (a zero stride means zero-width rows)
         let mut rest: &mut [P] = if pw == 0 { &mut [] } else { &mut self.buf[(top + start) * pw..] };
